@@ -184,6 +184,7 @@ theorem de_safe_all : ∀ t : Ty, ∀ st, Safe (de Rd.slice st t) := by
     · simp [Out.safe, eZst]
     · refine Safe.bind ?_ ?_ p
       · apply deVec_safe
+        unfold deEntry
         apply Safe.bind (iha st)
         intro x; dsimp only
         exact Safe.map (ihb st) _
